@@ -72,7 +72,7 @@ LEVEL_NOTE = (
 )
 TECHNIQUE = "runtime monitoring: round-trip recorder over three channels + observation-vector equality after every history step"
 ASSUMPTIONS = [
-    "observational equality = equality of the observation vector defined per family in this module; floats are compared with rel/abs tolerance 1e-9 (likelihoods rebuilt from parameter rules: 1e-8)",
+    "observational equality = equality of the observation vector defined per family in this module; floats are compared with rel/abs tolerance 1e-9 (substitution models 1e-8; likelihood functions and results holding them 1e-5, because parameter rules export probabilities through adjusted_gt_minprob(minprob=1e-6) by design)",
     "documented omissions are not demanded: new-style Sequence / SequenceCollection rich dict and json do not restore the annotation db; info['Refs'] is dropped; Aligned.to_rich_dict excludes annotations (the alignment carries the db); SeqView / SeqsData export re-bases coordinates to the truncated string",
     "documented class substitutions are accepted: Array*Sequence come back as the moltype's Sequence class, TreeNode as PhyloNode (json / rich dict); tuple vs list and numpy vs python scalars are not distinguished",
     "a component of the observation vector that cannot be observed on the ORIGINAL (the accessor raises) is skipped and counted; an operation of a history that raises is skipped and counted (those belong to the properties about the operation)",
@@ -2646,6 +2646,12 @@ def run_model(res, rng, item_seed, spec):
 # likelihood functions
 
 
+# G: parameter rules export probabilities (motif probs, discrete-time psubs) through adjusted_gt_minprob(minprob=1e-6)
+# (recalculation/setting.py get_param_rule_dict): an optimised probability below 1e-6 is raised on export by design,
+# which moves lnL in the 6th-7th significant digit. Likelihood functions are therefore compared with 1e-5.
+LF_TOL = 1e-5
+
+
 def canon_rules(rules):
     out = []
     for r in rules:
@@ -2747,7 +2753,7 @@ def gen_lf(res, rng, model, depth, variant):
         ok, lf = try_op(res, "lf", "build", lambda: M.build_lf(prob))
     if not ok:
         return
-    item = lambda lf: Item("AlignmentLikelihoodFunction", lf, lf_components(multi), tol=1e-8, mech="likelihood_function")  # noqa: E731
+    item = lambda lf: Item("AlignmentLikelihoodFunction", lf, lf_components(multi), tol=LF_TOL, mech="likelihood_function")  # noqa: E731
     yield item(lf), "fresh", d0
     for _ in range(depth):
         pars = [p for p in lf.get_param_names() if p not in ("mprobs", "length", "bprobs", "rate", "psubs")]
@@ -2971,7 +2977,7 @@ def gen_result(res, rng, rtype):
     from cogent3.util.dict_array import DictArrayTemplate
 
     source = rng.choice(["data/brca1.fasta", "x.json", "some source"])
-    item = lambda r: Item(type(r).__name__, r, result_components(), tol=1e-8, mech="result." + type(r).__name__)  # noqa: E731
+    item = lambda r: Item(type(r).__name__, r, result_components(), tol=LF_TOL, mech="result." + type(r).__name__)  # noqa: E731
     if rtype == "generic":
         r = R.generic_result(source=source)
         yield item(r), "fresh", {"type": rtype, "source": source}
